@@ -10,6 +10,8 @@
 #![allow(clippy::all)]
 
 extern crate rustc_abi;
+extern crate rustc_ast;
+extern crate rustc_ast_pretty;
 extern crate rustc_driver;
 extern crate rustc_hir;
 extern crate rustc_interface;
@@ -699,18 +701,98 @@ impl<'tcx> Cx<'tcx> {
 
 struct Cb {
     out: String,
+    helper: Vec<String>,
+}
+
+/// Walks the expanded AST and records derive-helper attributes (`#[serde(..)]`), which do not survive to HIR.
+struct AttrWalk {
+    path: Vec<String>,
+    out: Vec<String>,
+}
+
+impl AttrWalk {
+    fn attrs(&mut self, what: &str, name: &str, attrs: &[rustc_ast::Attribute]) {
+        for a in attrs {
+            if let rustc_ast::AttrKind::Normal(n) = &a.kind {
+                let segs: Vec<String> = n.item.path.segments.iter().map(|s| s.ident.name.to_string()).collect();
+                if segs.len() == 1 && segs[0] == "serde" {
+                    let txt = rustc_ast_pretty::pprust::attribute_to_string(a);
+                    self.out.push(format!(
+                        "{{\"rec\":\"helper_attr\",\"item\":{},\"on\":{},\"name\":{},\"text\":{}}}",
+                        esc(&self.path.join("::")),
+                        esc(what),
+                        esc(name),
+                        esc(&txt)
+                    ));
+                }
+            }
+        }
+    }
+    fn variant_data(&mut self, vd: &rustc_ast::VariantData) {
+        for (i, f) in vd.fields().iter().enumerate() {
+            let n = f.ident.map(|x| x.name.to_string()).unwrap_or_else(|| i.to_string());
+            self.attrs("field", &n, &f.attrs);
+        }
+    }
+    fn item(&mut self, it: &rustc_ast::Item) {
+        use rustc_ast::ItemKind;
+        match &it.kind {
+            ItemKind::Mod(_, ident, rustc_ast::ModKind::Loaded(items, ..)) => {
+                self.path.push(ident.name.to_string());
+                for i in items {
+                    self.item(i);
+                }
+                self.path.pop();
+            }
+            ItemKind::Struct(ident, _, vd) | ItemKind::Union(ident, _, vd) => {
+                self.path.push(ident.name.to_string());
+                self.attrs("item", "", &it.attrs);
+                self.variant_data(vd);
+                self.path.pop();
+            }
+            ItemKind::Enum(ident, _, def) => {
+                self.path.push(ident.name.to_string());
+                self.attrs("item", "", &it.attrs);
+                for v in &def.variants {
+                    self.attrs("variant", &v.ident.name.to_string(), &v.attrs);
+                    self.path.push(v.ident.name.to_string());
+                    self.variant_data(&v.data);
+                    self.path.pop();
+                }
+                self.path.pop();
+            }
+            _ => {}
+        }
+    }
 }
 
 impl rustc_driver::Callbacks for Cb {
+    fn after_expansion<'tcx>(&mut self, _c: &Compiler, tcx: TyCtxt<'tcx>) -> Compilation {
+        let steal = tcx.resolver_for_lowering();
+        let guard = steal.borrow();
+        let krate = &guard.1;
+        let mut w = AttrWalk { path: Vec::new(), out: Vec::new() };
+        for it in &krate.items {
+            w.item(it);
+        }
+        self.helper = w.out;
+        Compilation::Continue
+    }
+
     fn after_analysis<'tcx>(&mut self, _c: &Compiler, tcx: TyCtxt<'tcx>) -> Compilation {
         let cx = Cx { tcx };
         let mut out = String::new();
         let cname = tcx.crate_name(LOCAL_CRATE);
         let _ = writeln!(
             out,
-            "{{\"rec\":\"crate\",\"name\":{},\"overflow_checks\":{},\"features\":[{}]}}",
+            "{{\"rec\":\"crate\",\"name\":{},\"overflow_checks\":{},\"extern_crates\":[{}],\"features\":[{}]}}",
             esc(cname.as_str()),
             tcx.sess.overflow_checks(),
+            {
+                let mut v: Vec<String> = tcx.crates(()).iter().map(|c| esc(tcx.crate_name(*c).as_str())).collect();
+                v.sort();
+                v.join(",")
+            },
             {
                 let mut f: Vec<String> = tcx
                     .sess
@@ -728,6 +810,9 @@ impl rustc_driver::Callbacks for Cb {
                 f.join(",")
             }
         );
+        for h in &self.helper {
+            let _ = writeln!(out, "{}", h);
+        }
         cx.adts_and_impls(&mut out);
         let mut n = 0usize;
         for &ldid in tcx.mir_keys(()) {
@@ -777,7 +862,7 @@ fn main() {
         rustc_driver::run_compiler(&args, &mut Nop);
         return;
     }
-    let mut cb = Cb { out: String::new() };
+    let mut cb = Cb { out: String::new(), helper: Vec::new() };
     rustc_driver::run_compiler(&args, &mut cb);
     if !cb.out.is_empty() {
         let path = std::env::var("MIRFACTS_OUT").unwrap();
